@@ -215,8 +215,12 @@ class Exec:
         cond = zbool(cond)
         self.pc.append(cond)
 
-    def axiom(self, cond):
+    def axiom(self, cond, requested=True):
+        """lemma instance / assumed fact available to every later obligation of the path.
+        requested=False marks bulk auto-generated instances (tried last by the solver stages)."""
         self.axioms.append(cond)
+        if requested:
+            self.ps.setdefault("requested_axioms", set()).add(cond.get_id())
 
     def branch(self, cond):
         if isinstance(cond, bool):
@@ -234,6 +238,8 @@ class Exec:
         g = z3.simplify(goal)
         ob = Obligation(oid, kind, list(self.pc), g, where, list(self.axioms),
                         canary=canary, path=list(self.trail))
+        req = self.ps.get("requested_axioms", set())
+        ob.req_axioms = [a for a in ob.axioms if a.get_id() in req]
         ob.inputs = self.ps.get("inputs")
         ob.variant = self.ps.get("variant")
         self.obligations.append(ob)
@@ -457,6 +463,7 @@ class Exec:
             cur = self.load_name(t.id, fr, t)
             rhs = self.eval(st.value, fr)
             if isinstance(cur, NdArr):
+                self.note_write(cur, st)
                 self.inplace_arr(cur, st.op, rhs, st)
                 return
             if isinstance(cur, list) and isinstance(st.op, ast.Add):
@@ -468,7 +475,9 @@ class Exec:
             idx = self.eval_index(t.slice, fr)
             cur = self.getitem(base, idx, t)
             rhs = self.eval(st.value, fr)
-            if isinstance(cur, NdArr):
+            if isinstance(cur, NdArr) or type(cur).__name__ == "MaskedView":
+                if isinstance(base, NdArr):
+                    self.note_write(base, st)
                 self.inplace_arr(cur, st.op, rhs, st)
             else:
                 self.setitem(base, idx, self.binop(st.op, cur, rhs, st), t)
@@ -699,9 +708,42 @@ class Exec:
         heap_mods = mutated_names(st.body) | set(c.loop_modifies.get(k, []))
         self._only_augassigned = augassigned_only(st.body)
         self._loop_kinds = c.loop_kinds.get(k, {})
-        self.havoc(fr, mods, heap_mods, pre)
+        attr_mods = mutated_attrs(st.body)
+        self.havoc(fr, mods, heap_mods - {b for b, _ in attr_mods if self._is_obj(b, fr)}, pre)
+        for b, attr in sorted(attr_mods):
+            o = self.lookup_local(b, fr)
+            if isinstance(o, Obj):
+                if attr in o.fields:
+                    o.fields[attr] = self.havoc_value("%s.%s" % (b, attr), o.fields[attr], rebind=True)
+                else:
+                    kind = self._loop_kinds.get("%s.%s" % (b, attr))
+                    if kind is None:
+                        raise Unsupported("attribute %s.%s first assigned in a cut loop (declare loop_kinds)" % (b, attr))
+                    o.fields[attr] = {"real": self.real, "int": self.int, "bool": self.bool}[kind](attr)
         kk = self.int("k") if seq is not None else None
-        which = self.choose([None, None])       # 0: arbitrary iteration, 1: exit
+        which = self.choose([None, None, None])  # 0: arbitrary iteration, 1: exit, 2: peeled first iteration
+        if which == 2:
+            # the first iteration from the real entry state (no havoc): its safety obligations, unbound
+            # locals, writes through aliases of the entry state.  Ends after one body execution.
+            self.restore_env(fr, pre, mods, heap_mods, attr_mods)
+            if seq is not None:
+                self.assume(z(seq.length) > 0)
+                L.k = 0
+                self.assign(st.target, seq.item(z3.IntVal(0)), fr)
+            else:
+                if not self.truth(self.eval(st.test, fr), st.test):
+                    raise PathEnd("guard-false")
+            try:
+                self.exec_block(st.body, fr)
+            except (_Break, _Continue):
+                pass
+            self.at_path_cut("first-iteration")
+            raise PathEnd("first-iteration")
+        declared = dict(self._loop_kinds)
+        for nme in sorted(mods):
+            if isinstance(fr.locals.get(nme), Unbound) and nme in declared:
+                fr.locals[nme] = self.fresh_of_kind(nme, declared[nme])
+                fr.locals["$maybe_unbound"] = fr.locals.get("$maybe_unbound", set()) | {nme}
         if which == 0:
             if seq is not None:
                 self.assume(z3.And(kk >= 0, kk < z(seq.length)))
@@ -733,6 +775,11 @@ class Exec:
                 raise Unsupported("while-loop decreases not implemented")
             raise PathEnd("inv-step")
         else:
+            for nme in sorted(fr.locals.get("$maybe_unbound", set())):
+                # a local first assigned in the loop is unbound after zero iterations
+                if seq is not None and nme in fr.locals and self.branch(z(seq.length) <= 0):
+                    del fr.locals[nme]
+            fr.locals.pop("$maybe_unbound", None)
             if seq is not None:
                 n = z(seq.length)
                 end = z3.If(n > 0, n, z3.IntVal(0))
@@ -748,6 +795,46 @@ class Exec:
                     raise PathEnd("guard-true-at-exit")
             self.exec_block(st.orelse, fr)
 
+    def fresh_of_kind(self, n, kind):
+        if isinstance(kind, tuple) and kind[0] == "nd":
+            dims = tuple(self.int(n + "_dim") for _ in range(kind[1]))
+            for d in dims:
+                self.assume(d >= 0)
+            return NdArr.fresh(n, dims, kind[2] if len(kind) > 2 else "real")
+        return {"real": self.real, "int": self.int, "bool": self.bool, "str": self.str}[kind](n)
+
+    def restore_env(self, fr, pre, mods, heap_mods, attr_mods):
+        """undo the havoc: rebind names to their loop-entry values (objects were snapshotted by term)"""
+        for n in set(mods) | set(heap_mods):
+            cur = self.lookup_local(n, fr)
+            if n not in pre:
+                if cur is not _MISSING:
+                    self.owner_frame(n, fr).locals.pop(n, None)
+                continue
+            old = pre[n]
+            if isinstance(old, (NdArr, SList)) and "$live_" + n in pre:
+                live = pre["$live_" + n]
+                if isinstance(live, NdArr):
+                    live.cell.term, live.cell.nan = old.cell.term, old.cell.nan
+                else:
+                    live.term, live.length = old.term, old.length
+                self.owner_frame(n, fr).locals[n] = live
+            else:
+                self.owner_frame(n, fr).locals[n] = old
+        for b, attr in attr_mods:
+            o = self.lookup_local(b, fr)
+            key = "$attr_%s.%s" % (b, attr)
+            if isinstance(o, Obj):
+                if key in pre:
+                    o.fields[attr] = pre[key]
+                else:
+                    o.fields.pop(attr, None)
+
+    def at_path_cut(self, why):
+        hook = getattr(self, "cut_hook", None)
+        if hook is not None:
+            hook(self, why)
+
     def havoc(self, fr, names, heap_names, pre):
         for n in sorted(names):
             cur = self.lookup_local(n, fr)
@@ -761,6 +848,9 @@ class Exec:
             if cur is _MISSING:
                 continue
             self.havoc_value(n, cur, rebind=False)
+
+    def _is_obj(self, n, fr):
+        return isinstance(self.lookup_local(n, fr), Obj)
 
     def havoc_value(self, n, cur, rebind):
         if isinstance(cur, Unbound):
@@ -1238,7 +1328,7 @@ class Exec:
     def call_closure(self, clo, args, kwargs, node):
         func = clo.func
         c = self.contracts.get(func.key)
-        if c is not None and (self.top is None or c is not self.top or self.inline_depth > 0):
+        if c is not None and not c.inline_at_calls and (self.top is None or c is not self.top or self.inline_depth > 0):
             return self.apply_contract(c, clo, args, kwargs, node)
         return self.call_repo_function(func, args, kwargs, clo.env, clo.self_obj, node)
 
@@ -1601,6 +1691,23 @@ def mutated_names(body):
     return out
 
 
+def mutated_attrs(body):
+    """(base name, attribute) pairs stored in the loop body: self.n_iter_ = ..."""
+    out = set()
+    for st in body:
+        for n in [st] + list(walk_no_nested_stmt(st)):
+            tg = []
+            if isinstance(n, ast.Assign):
+                tg = n.targets
+            elif isinstance(n, ast.AugAssign):
+                tg = [n.target]
+            for t in tg:
+                for x in ([t] if not isinstance(t, (ast.Tuple, ast.List)) else t.elts):
+                    if isinstance(x, ast.Attribute) and isinstance(x.value, ast.Name):
+                        out.add((x.value.id, x.attr))
+    return out
+
+
 def snapshot_env(fr):
     snap = {}
     f = fr
@@ -1610,11 +1717,15 @@ def snapshot_env(fr):
                 continue
             if isinstance(v, (NdArr, SList)):
                 snap[k] = v.snapshot()
+                snap["$live_" + k] = v
             elif isinstance(v, list):
                 snap[k] = list(v)
             elif isinstance(v, dict):
                 snap[k] = dict(v)
             else:
                 snap[k] = v
+            if isinstance(v, Obj):
+                for fk, fv in v.fields.items():
+                    snap["$attr_%s.%s" % (k, fk)] = fv
         f = f.parent
     return snap
